@@ -760,6 +760,33 @@ func ruleSolutionsTypestate(c *Ctx, r *Report) {
 					}
 				})
 			}
+			// a select counts too: every receive state is on the request channel or on ctx.Done()
+			for _, f := range withAnon(gofn) {
+				eachInstr(f, func(in ssa.Instruction) {
+					sel, ok := in.(*ssa.Select)
+					if !ok || !sel.Blocking {
+						return
+					}
+					for _, stt := range sel.States {
+						if stt.Dir != types.RecvOnly {
+							continue
+						}
+						nrecv++
+						key := fmt.Sprintf("%s/recv[%d]", fname(f), nrecv)
+						isDone := false
+						for _, l := range c.originSet(stt.Chan) {
+							if call, ok := l.(*ssa.Call); ok && call.Call.IsInvoke() && call.Call.Method.Name() == "Done" && isContextType(call.Call.Value.Type()) {
+								isDone = true
+							}
+						}
+						if isChan(stt.Chan, mkChanMore) || isDone {
+							r.ok(rule, key, c.at(sel), "every blocking receive of the search goroutine is released by Close", "select case on the request channel (closed by Close) or on ctx.Done()", true)
+						} else {
+							r.bad(rule, key, c.at(sel), "every blocking receive of the search goroutine is released by Close", "select case on a channel that Close does not close: the goroutine can leak")
+						}
+					}
+				})
+			}
 			deferred := false
 			eachInstr(gofn, func(in ssa.Instruction) {
 				d, ok := in.(*ssa.Defer)
